@@ -164,7 +164,8 @@ pub fn run(args: &Args) -> Report {
         rep.inc(if i < n_real { "memory.real_public_memories" } else { "memory.random_public_memories" });
         let replay = json!({"public_memory": label, "cells": pi.main_page.len(), "pages": pi.continuous_page_headers.len(), "z": hex(&z), "alpha": hex(&alpha), "column_size": size.to_string()});
         match got {
-            Ok(g) if g == want => {}
+            Ok(Ok(g)) if g == want => {}
+            // den != 0 and size >= total_len here: the closed form is defined, so an error is a mismatch too
             Ok(_) => rep.violation("C15|memory-ratio-mismatch", "get_public_memory_product_ratio differs from z^size / (prod (z-(a+alpha v)) * page prods * padding^(size-len))", replay),
             Err(p) => rep.violation("C15|memory-ratio-panic", &format!("panic {}:{} {}", p.file, p.line, p.msg), replay),
         }
